@@ -785,3 +785,60 @@ pub fn gm_replay(scripts: &[Value], log: &mut Log) {
         }
     }
 }
+
+// ------------------------------------------------------------------------------------------------
+// MatrixImpl.tla -> implementation: exported state histories replayed on the real MatrixGraph.  Which free id add_node
+// hands out is not promised by C04 (the model's LIFO choice is compared and reported only; if the real graph chooses
+// differently the rest of that history is skipped).  Verdicts: the live id set, has_edge for every pair, edge_count.
+fn mxi_one<Ty: petgraph::EdgeType>(sc: &Value) -> Result<(Vec<String>, bool), ()> {
+    use petgraph::matrix_graph::MatrixGraph;
+    use petgraph::visit::IntoNodeIdentifiers;
+    guard(|| {
+        let mut diffs = vec![];
+        let mut g: MatrixGraph<(), i64, std::collections::hash_map::RandomState, Ty, Option<i64>, u16> = MatrixGraph::with_capacity(0);
+        let ix = |x: u64| petgraph::matrix_graph::NodeIndex::<u16>::new(x as usize);
+        for (i, op) in sc["hist"].as_array().unwrap().iter().enumerate() {
+            let (a, b, r) = (op["a"].as_u64().unwrap(), op["b"].as_u64().unwrap(), op["res"].as_i64().unwrap());
+            match op["op"].as_str().unwrap() {
+                "add_node" => {
+                    let id = g.add_node(()).index() as i64;
+                    if id != r {
+                        // a different (but possibly legitimate) id: the model's history no longer applies
+                        let live: Vec<usize> = g.node_identifiers().map(|x| x.index()).collect();
+                        if live.iter().filter(|&&x| x as i64 == id).count() != 1 { diffs.push(format!("call {} add_node returned {} which is not a fresh live id", i, id)); }
+                        return (diffs, false);
+                    }
+                }
+                "update_edge" => {
+                    let old = g.update_edge(ix(a), ix(b), i as i64 + 1);
+                    if old.is_some() != (r == 1) { diffs.push(format!("call {} update_edge({},{}) previous weight {:?}, model says present={}", i, a, b, old, r == 1)); }
+                }
+                "remove_edge" => { g.remove_edge(ix(a), ix(b)); }
+                _ => { g.remove_node(ix(a)); }
+            }
+        }
+        let live: Vec<u64> = sc["live"].as_array().unwrap().iter().map(|x| x.as_u64().unwrap()).collect();
+        let mut real: Vec<u64> = g.node_identifiers().map(|x| x.index() as u64).collect();
+        real.sort();
+        if real != live { diffs.push(format!("live ids {:?}, model {:?}", real, live)); }
+        if g.node_count() != live.len() { diffs.push(format!("node_count {} vs {}", g.node_count(), live.len())); }
+        if g.edge_count() as u64 != sc["nb"].as_u64().unwrap() { diffs.push(format!("edge_count {} vs model {}", g.edge_count(), sc["nb"])); }
+        let cells: Vec<(u64, u64)> = sc["cells"].as_array().unwrap().iter().map(|c| (c[0].as_u64().unwrap(), c[1].as_u64().unwrap())).collect();
+        for &a in &live { for &b in &live {
+            if !real.contains(&a) || !real.contains(&b) { continue; }
+            let want = cells.contains(&(a, b)) || (!Ty::is_directed() && cells.contains(&(b, a)));
+            if g.has_edge(ix(a), ix(b)) != want { diffs.push(format!("has_edge({},{}) = {}, model {}", a, b, !want, want)); }
+        } }
+        (diffs, true)
+    })
+}
+
+pub fn mxi_replay(scripts: &[Value], log: &mut Log) {
+    for (i, sc) in scripts.iter().enumerate() {
+        let r = if sc["directed"].as_bool().unwrap() { mxi_one::<petgraph::Directed>(sc) } else { mxi_one::<petgraph::Undirected>(sc) };
+        match r {
+            Ok((d, followed)) => log.ev(json!({"i": i, "ok": d.is_empty(), "followed": followed, "diffs": d.into_iter().take(4).collect::<Vec<_>>()})),
+            Err(()) => log.ev(json!({"i": i, "ok": false, "followed": true, "diffs": ["panic"]})),
+        }
+    }
+}
